@@ -2,41 +2,54 @@ import vlib
 
 class P(vlib.Prop):
     id = "C19"
+    watch = ("pkg/apk/apk/cache.go", "pkg/paths/paths.go", "pkg/apk/apk/implementation.go", "pkg/apk/expandapk/expandapk.go")
     rule = ("one harness run = real apko layer builds (pkg/build, the code path of `apko build`) as separate PROCESSES against a synthetic signed "
-            "repository served over HTTP with ETags, two repository revisions (new index etag, a new package version, two packages rebuilt under the "
-            "same name-version). Cases: (a) listings of the cache directory after cold/warm/updated/rolled-back builds, k concurrent builders, builds "
-            "killed mid-download, forced two-process interleavings — judged by the verified validator (c19_validator_decides); (b) single-package crash "
-            "scenarios: a build killed by SIGKILL at every hook point of the index and package population and of the in-place .dat.tar rebuild, then "
-            "recovery builds and repository updates; the same scenario is replayed on the Coq model and the advertised names (absent / link to which "
-            "content / regular file with which content) and the completion of every process are compared; (c) strace traces of real builds "
-            "abstracted to the model's step alphabet, `accepts protocol trace` evaluated in Coq. Every build that runs to the end with the cache is "
-            "compared with a build WITHOUT cache (layer digest); every scenario ends with an offline build (same digest as some served revision, or an "
-            "error). A case is distinct by its term; all are non-trivial.")
+            "repository served over HTTP with ETags, three repository revisions (new index etag, a new package version, two packages rebuilt under the "
+            "same name-version with other data, one rebuilt with only its control section changed). Cases: (a) listings of the cache directory after "
+            "cold/warm/updated/rolled-back builds, an update between the HEAD and the GET of one build, k concurrent builders, downloads killed mid-body "
+            "(incl. index downloads cut at chosen offsets such as the gzip member boundary), forced two-process interleavings — judged by the verified "
+            "validator (c19_validator_decides); (b) single-package crash scenarios: a build killed by SIGKILL at every hook point of the index and package "
+            "population and of PackageData's rebuild, recovery builds, repository updates (also between HEAD and GET); the same scenario is replayed on the "
+            "Coq model (index download = Head/Stat/Get against a time-dependent origin) and the advertised names (absent / link to which content / regular "
+            "file with which content) and the completion of every process are compared; (c) strace traces of real builds abstracted to the model's step "
+            "alphabet, `accepts protocol trace` evaluated in Coq. Every build that runs to the end with the cache is compared with a build WITHOUT cache "
+            "(layer digest); after every kill (on a copy of the cache) and at the end of every scenario an offline build must give the digest of some "
+            "served revision or an error. A case is distinct by its term; all are non-trivial.")
     stages = (
         dict(name="cache", cmd="c19", args=lambda t, s: ["-stage", "all"], timeout=1500),
     )
     assumptions = (
-        "temporary names (os.CreateTemp / os.MkdirTemp, O_EXCL) are unique per protocol instance; the only names ever removed are unadvertised temporary files",
+        "temporary names (os.CreateTemp / os.MkdirTemp, O_EXCL) are unique per protocol instance (the model's identity o; that builders only ever touch their own is "
+        "proved: c19_private_temp_names; that the code creates them this way is read from the source: c19_temp_names_code)",
         "content is determined by the key: SHA-1/SHA-256 are collision-free on what the origin serves, the signature section is a function of the control section, "
-        "an ETag identifies one index content (hypothesis builders_ok / the origin function)",
+        "an ETag identifies one index content (hypothesis etag_names_content: whenever the origin answers with etag e the body is origin(e); which revision it answers "
+        "with at which step is arbitrary)",
         "each atomic step of the model (mkdir, create, one write, close, stat, unlink, symlink) is atomic on the host filesystem; a SIGKILL loses no completed system call "
         "(process crashes, not power failures: nothing is fsynced by apko)",
         "advertised names only ever point at regular temporary files (one level of symbolic links)",
         "the cache directory is written by apko builders only; tampering by other parties is explored (tamper stage) but is outside the quantifier of the property",
     )
-    level_text = ("c19_invariant holds for every origin, every number of builders running the index / package population protocols with any parameters, "
-                  "and every schedule (any interleaving, each builder killed after any number of atomic steps, builders starting at any time) — unbounded, by "
-                  "induction over the schedule; c19_transparent: from any sound state a lookup is a miss or exactly the origin's bytes for the requested key; "
-                  "c19_offline and the full invariant with the in-place .dat.tar rebuild are REFUTED with machine-checked witnesses (c19_offline_refuted — an error "
-                  "on the real code, allowed by the property; c19_tarfile_rebuild_refuted — a silently different image on the real code, finding C19-F1/F1b; c19_lookup_not_atomic_refuted — cachedPackage's lookups are not atomic and a hit can lose the signature section, finding C19-F2). c19_code_order pins the order of the durable calls read from the source by goextract. The model "
-                  "is tied to the code by replaying kill scenarios at every hook point on model and implementation and by strace trace conformance.")
-    level_note = ("trusted: Coq kernel, Go harness/printer and its path abstraction, strace; modelled not verified: the Go text of retrieveAndSaveFile / "
+    level_text = ("c19_invariant holds for every origin whose index revision may change at ANY step, every number of builders (index downloads = HEAD, Stat, GET; "
+                  "package populations; readers that rebuild <hash>.dat.tar) with any parameters, and every schedule (any interleaving, each builder killed after any "
+                  "number of atomic steps, builders starting at any time) — unbounded, by induction over the schedule, for both orders of cachePackage; "
+                  "c19_index_revision_exact: every advertised index name holds exactly the bytes served together with THAT etag (the etag was really answered earlier); "
+                  "c19_head_etag_refuted / c19_shared_temp_refuted pin the two design decisions (name by the GET response's etag; private temporary names, "
+                  "c19_private_temp_names hypothesis-free) and c19_index_name_code / c19_temp_names_code / c19_code_order tie them and the order of the durable calls "
+                  "to the source read by goextract; c19_transparent: from any sound state an atomic lookup is a miss or exactly the origin's bytes; "
+                  "c19_entries_stable, c19_cache_package_skips_rebuild; c19_tarfile_rebuild (C19-F1/F1b fixed by 90139a3). REFUTED with machine-checked witnesses: "
+                  "c19_offline_refuted (an error on the real code, allowed), c19_lookup_not_atomic_refuted (finding C19-F2) and c19_stale_hit_without_sig_refuted "
+                  "(finding C19-F3): a hit can lack the signature section, whose size is written into the image. c19_f2_fix_transparent: with the control section "
+                  "advertised last (fixes/C19-F2.patch, proposed) a lookup that reads the four sections in four different states is exact. "
+                  "c19_offline_tmp_complete_is_origin: a temporary index file holds a prefix of a served body, the whole body when complete.")
+    level_note = ("trusted: Coq kernel, Go harness/printer and its path abstraction, strace; modelled not verified: the Go text of fetchAndCache / get / retrieveAndSaveFile / "
                   "AdvertiseCachedFile / ExpandApk / cachePackage / cachedPackage / PackageData / fetchOffline, the host filesystem, gzip/tar/RSA, net/http; "
                   "crash, concurrency and tamper experiments are exploration supporting the model, not proof")
     design_ref = "DESIGN.md 7 C19, Appendix A.4"
-    modelled_not_verified = ("the population protocols, AdvertiseCachedFile, the readers and the in-place rebuild are modelled by hand (Model/Cache.v) and tied by "
-                             "kill-scenario replay at every verifhook point plus strace conformance; singleflight / sync.Once request coalescing inside one process "
-                             "is not modelled separately (every goroutine is just another builder); mtime-based choice in fetchOffline is over-approximated by "
-                             "an arbitrary choice; tarfs/gzip parsing of a partial file is not modelled (the model says which bytes are returned, not whether they parse)")
+    modelled_not_verified = ("the population protocols, the index download (HEAD, Stat, GET), AdvertiseCachedFile, the readers and PackageData's rebuild are modelled by hand "
+                             "(Model/Cache.v) and tied by kill-scenario replay at every verifhook point, strace conformance and goextract (call order, which response's "
+                             "etag names the file, how temporary names are created, order of cachePackage); singleflight / sync.Once / the in-memory etag cache inside one "
+                             "process are not modelled separately (every goroutine is just another builder, a cached HEAD is an earlier HEAD); mtime-based choice in "
+                             "fetchOffline is over-approximated by an arbitrary choice; gzip/tar/signature parsing of a partial file is not modelled (the model says which "
+                             "bytes are returned — a strict prefix of a served body — not whether they parse; the real code fails on every prefix tried)")
 
 PROP = P()
